@@ -22,6 +22,7 @@ package middleware
 //@ ghost gVerifyArgTok string
 //@ ghost gVerifyArgTenant string
 //@ ghost gAuthCreated bool
+//@ ghost gAuthObj *Auth
 
 //@ extern github.com/gin-gonic/gin.(*Context).AbortWithStatusJSON
 //@   modifies-all $gAborted $gStatus $gWrote
@@ -49,6 +50,7 @@ package middleware
 //@ contract NewAuth
 //@   serves C09
 //@   ghost-set gAuthCreated = true
+//@   ghost-set gAuthObj = result
 //@   ensures[fresh] result != nil && fresh(result) && result.verifier == verifier
 //@   opt frame true
 
